@@ -1,4 +1,5 @@
 import Orx.GenThms.Proto
+import Orx.GenThms.ProtoBuf
 /-! # `cloned()` / `copied()` over the wrapper, as translated from the source, are the wrapper's own functions
 
 `Cloned<'a, T, ConIterOfIter<..>>` and `Copied<..>` (`Generated/ProtoIter.lean`: `ClonedI.*`, `CopiedI.*`, and their buffered
@@ -151,5 +152,74 @@ theorem adapt_buf_chunk_size {ρ' : Type} (f : Nat) (c : BufIterSelf) :
   constructor
   · unfold BufClonedI.chunk_size BufIter.chunk_size; first | exact m_fn_idem _ | exact m_fn_forward _
   · unfold BufCopiedI.chunk_size BufIter.chunk_size; first | exact m_fn_idem _ | exact m_fn_forward _
+
+
+def aself (vals : List (Option Nat)) : BufferedIterSelfPA := { buffered_iter := { chunk := { values := vals } }, atomic_iter := { iter := iter0 } }
+
+/-- what the buffered pull through an adaptor returns after the fill loop: `tBufNextPublish` with the adaptor's wrappers
+around the buffer -/
+def tBufNextPublishA {ρ : Type} (b : Nat) (vals : List (Option Nat)) (i : Nat) :
+    PF ρ (Option (NextChunk BufferedIter) × BufferedIterSelfPA) :=
+  let pub : PF ρ (Option (NextChunk BufferedIter) × BufferedIterSelfPA) :=
+    .faa .Y .acqrel vals.length fun old =>
+      if old = b then
+        .ret (.norm (match i with
+          | 0 => (none, aself vals)
+          | _ + 1 => (some { begin_idx := b, values := { values := vals, initial_len := i, current_idx := 0 } }, aself vals)))
+      else .panic "assert_eq"
+  if i < vals.length then .stB .C .seqcst true pub else pub
+
+/-- **the generic `BufferedIter::next` instantiated for `cloned()` / `copied()` over the wrapper is, node for node, the
+wrapper's buffered pull** (`buffered_next_tree`): reserve `chunk_size` positions on the wrapper's counter, look at `completed`,
+spin for the turn, fill the wrapper's buffer, publish — only the value handed back is wrapped in the adaptor's structs -/
+theorem cloned_buffered_next_tree {ρ' : Type} (k : Nat) (vals : List (Option Nat)) :
+    (BufferedIterClonedI.next k (aself vals) : PF ρ' _) =
+      .faa .R .acqrel vals.length fun b => .ldB .C .seqcst fun c =>
+        if c then .ret (.norm (none, aself vals))
+        else tWaitLoop (fun o => match o with
+          | none => .ret (.norm (none, aself vals))
+          | some b' => tFill (tBufNextPublishA b') k vals 0) k b := by
+  unfold BufferedIterClonedI.next
+  simp only [aself, (adapt_buf_chunk_size k _).1, cloned_progress, cloned_buf_pull]
+  simp only [bind, PF.bind, pure, m_fn, BufIter.chunk_size, m_len, Prog.bind, pgb_tree]
+  congr 1; funext b; congr 1; funext c
+  cases c
+  · simp only [Bool.false_eq_true, if_false, bind_tWaitLoop]
+    congr 1; funext o
+    cases o with
+    | none => simp [Prog.bind, m_join, pure, aself]
+    | some b' =>
+      simp only [Prog.bind, pull_tree, bind_tFill]
+      congr 1; funext v j
+      unfold tBufPublish tBufNextPublishA
+      by_cases hl : j < v.length <;> cases j <;>
+        simp [hl, Prog.bind, m_map, MMap.m_map, pure, m_join, aself, bind, PF.bind] <;>
+        (funext a; by_cases ha : a = b' <;> simp [ha, Prog.bind])
+  · simp [Prog.bind, m_join, pure, aself]
+
+theorem copied_buffered_next_tree {ρ' : Type} (k : Nat) (vals : List (Option Nat)) :
+    (BufferedIterCopiedI.next k (aself vals) : PF ρ' _) =
+      .faa .R .acqrel vals.length fun b => .ldB .C .seqcst fun c =>
+        if c then .ret (.norm (none, aself vals))
+        else tWaitLoop (fun o => match o with
+          | none => .ret (.norm (none, aself vals))
+          | some b' => tFill (tBufNextPublishA b') k vals 0) k b := by
+  unfold BufferedIterCopiedI.next
+  simp only [aself, (adapt_buf_chunk_size k _).2, copied_progress, copied_buf_pull]
+  simp only [bind, PF.bind, pure, m_fn, BufIter.chunk_size, m_len, Prog.bind, pgb_tree]
+  congr 1; funext b; congr 1; funext c
+  cases c
+  · simp only [Bool.false_eq_true, if_false, bind_tWaitLoop]
+    congr 1; funext o
+    cases o with
+    | none => simp [Prog.bind, m_join, pure, aself]
+    | some b' =>
+      simp only [Prog.bind, pull_tree, bind_tFill]
+      congr 1; funext v j
+      unfold tBufPublish tBufNextPublishA
+      by_cases hl : j < v.length <;> cases j <;>
+        simp [hl, Prog.bind, m_map, MMap.m_map, pure, m_join, aself, bind, PF.bind] <;>
+        (funext a; by_cases ha : a = b' <;> simp [ha, Prog.bind])
+  · simp [Prog.bind, m_join, pure, aself]
 
 end Orx.GenThms.Proto
